@@ -27,12 +27,20 @@ package key
 //@   trusted the TOML mirror structs are checked field by field under C20
 //@   modifies nothing
 
+//@ pred targetIntact(filePath) := fexists(filePath) == old(fexists(filePath)) && fcontent(filePath) == old(fcontent(filePath)) && fmode(filePath) == old(fmode(filePath))
 //@ func Save(filePath, t, secure) (err)
 //@   props C15 C20 C13
-//@   modifies fexists(filePath), fmode(filePath), fcontent(filePath)
+//@   modifies fexists(filePath), fmode(filePath), fcontent(filePath), fexists(filePath + ".tmp"), fmode(filePath + ".tmp"), fcontent(filePath + ".tmp")
 //@   ensures [C15:secure-save-leaves-an-owner-only-file] secure && err == nil ==> fexists(filePath) && fmode(filePath) == 384
 //@   ensures [C20:saved-file-holds-exactly-the-encoding-of-the-value] err == nil ==> (exists v iface :: fcontent(filePath) == tomlOf(v))
-//@   call Encode#0: assert [C20,C13:file-is-empty-when-encoding-starts] fcontent(filePath) == nil
+//@   ensures [C13:a-failed-save-leaves-the-previous-file-intact] err != nil ==> targetIntact(filePath)
+//@   call Encode#0: assert [C20,C13:file-is-empty-when-encoding-starts] fcontent(filePath + ".tmp") == nil && pathOf(encWriter(arg0)) == filePath + ".tmp"
+//@   call TOML#0: assert [C13:a-crash-while-saving-leaves-the-previous-file-intact] targetIntact(filePath)
+//@   call Encode#0: assert [C13:a-crash-while-saving-leaves-the-previous-file-intact] targetIntact(filePath)
+//@   call Sync#0: assert [C13:a-crash-while-saving-leaves-the-previous-file-intact] targetIntact(filePath)
+//@   call Close#0: assert [C13:a-crash-while-saving-leaves-the-previous-file-intact] targetIntact(filePath)
+//@   call Rename#0: assert [C13:a-crash-while-saving-leaves-the-previous-file-intact] targetIntact(filePath)
+//@   call Rename#0: assert [C13:only-a-completely-written-file-is-moved-into-place] arg1 == filePath && (exists v iface :: fcontent(arg0) == tomlOf(v))
 
 //@ func (*fileStore).SaveKeyPair(f, p) (err)
 //@   props C15
